@@ -172,7 +172,12 @@ class CallMixin:
             body = z3.If(z3.Or(neg, z3.PrefixOf(z3.StringVal("+"), v.t)), z3.SubString(v.t, 1, z3.Length(v.t) - 1), v.t)
             n = z3.StrToInt(body)
             other = self.ctx.fresh_term(z3.IntSort(), "intval")
-            return SV(TInt, z3.If(strict, z3.If(neg, -n, n), other))
+            # int() inverts str() on numerals (level-1 link to the named function used for str(int))
+            from .evalx import _istr_inv
+
+            inv = _istr_inv()(v.t)
+            self.ctx.assume(z3.Implies(strict, inv == z3.If(neg, -n, n)))
+            return SV(TInt, z3.If(strict, inv, other))
         if v.ty is TReal:
             return SV(TInt, z3.ToInt(v.t))
         return self.as_int(v, node)
@@ -346,7 +351,9 @@ class CallMixin:
 
     def bi_enumerate(self, node):
         (v,) = self.args_of(node)
-        return SV(None, None, py=("enumerate", v))
+        kw = self.kw_of(node)
+        start = self.as_int(kw["start"], node).t if "start" in kw else 0
+        return SV(None, None, py=("enumerate", v, start))
 
     def bi_reversed(self, node):
         raise Unsupported("reversed", node)
